@@ -2817,9 +2817,15 @@ void Analyser::AnalyserImpl::analyseModel(const ModelPtr &model)
             // marked as external and we go through the two loops one more time.
 
             for (const auto &internalVariable : mInternalVariables) {
-                if (internalVariable->mIsExternal
-                    && (internalVariable->mType == AnalyserInternalVariable::Type::UNKNOWN)) {
-                    internalVariable->mType = AnalyserInternalVariable::Type::INITIALISED;
+                if (internalVariable->mIsExternal) {
+                    if (internalVariable->mType == AnalyserInternalVariable::Type::UNKNOWN) {
+                        internalVariable->mType = AnalyserInternalVariable::Type::INITIALISED;
+                    } else if (internalVariable->mType == AnalyserInternalVariable::Type::SHOULD_BE_STATE) {
+                        // A state that is not initialised, but its value is
+                        // provided externally.
+
+                        internalVariable->mType = AnalyserInternalVariable::Type::STATE;
+                    }
                 }
             }
 
